@@ -105,6 +105,7 @@ type PathStats struct {
 	Covers       map[string]int
 	CoverModels  map[string]map[string]string
 	Funcs        map[string]int
+	Files        map[string]int // instructions executed per source file of the tree under test
 	Stubs        map[string]int
 	Violations   []*Violation
 	Errors       []string
@@ -127,7 +128,7 @@ type worker struct {
 // Explore runs all paths of one harness.
 func Explore(P *Program, pkg *ssa.Package, spec HarnessSpec, nworkers int, solverBin string, solverTimeoutMs int) *PathStats {
 	t0 := time.Now()
-	st := &PathStats{Asserts: map[string]int{}, Covers: map[string]int{}, CoverModels: map[string]map[string]string{}, Funcs: map[string]int{}, Stubs: map[string]int{}}
+	st := &PathStats{Asserts: map[string]int{}, Covers: map[string]int{}, CoverModels: map[string]map[string]string{}, Funcs: map[string]int{}, Files: map[string]int{}, Stubs: map[string]int{}}
 	fn := pkg.Func(spec.Func)
 	if fn == nil {
 		st.Errors = append(st.Errors, "harness function not found: "+spec.Func)
@@ -232,6 +233,9 @@ func Explore(P *Program, pkg *ssa.Package, spec HarnessSpec, nworkers int, solve
 				for k, v := range res.funcs {
 					st.Funcs[k] += v
 				}
+				for k, v := range res.files {
+					st.Files[k] += v
+				}
 				for k, v := range res.stubs {
 					st.Stubs[k] += v
 				}
@@ -302,6 +306,7 @@ type pathResult struct {
 	unknowns     int
 	overflowObl  int
 	maxGap       int
+	files        map[string]int
 	inconclusive []string
 	sample       map[string]interface{}
 }
@@ -375,8 +380,16 @@ func runPath(P *Program, pkg *ssa.Package, fn *ssa.Function, spec HarnessSpec, w
 		res.overflowObl = e.overflowObl
 		res.inconclusive = e.inconclusive
 		res.funcs = map[string]int{}
+		res.files = map[string]int{}
 		for f, n := range e.funcs {
 			res.funcs[f.String()] += n
+			name := P.fset.Position(f.Pos()).Filename
+			for q := f; name == "" && q != nil; q = q.Parent() {
+				name = P.fset.Position(q.Pos()).Filename
+			}
+			if strings.HasPrefix(name, repoDir+"/") && !strings.Contains(name, "zz_verif") && !strings.Contains(name, "/internal/vnd/") && !strings.Contains(name, "/internal/vstub/") {
+				res.files[strings.TrimPrefix(name, repoDir+"/")] += n
+			}
 		}
 		res.stubs = e.stubs
 		if r != nil {
